@@ -17,6 +17,10 @@
 //!   c07.tree.outside      well-formed trees damaged in one place: lying /Count (small), wrong /Parent,
 //!                         missing /Parent, /Parent cycle, kid listed twice, dangling kid, wrong /Type,
 //!                         kid pointing at an ancestor                                            drift only
+//!   c07.bytes             the byte-level composition (`PageTreeB.getPageB` in the driver: `openB` → `resolveB` → node reader →
+//!                         page-tree model, from the bytes of the file alone) against `get_page` on generated tree files in
+//!                         the plain layout (integer boxes, attributes in place, classic table or xref stream with unfiltered
+//!                         object streams)                                                           in domain
 //! Oracle (implementation against the property itself; independent of the model):
 //!   c07.dfs               for every file of the in-domain streams: leaves in depth-first order computed from
 //!                         the abstract tree, nearest-ancestor attributes computed by walking up
@@ -221,8 +225,10 @@ fn gen_random(rng: &mut Rng, max_level: usize, min_spine: usize) -> Vec<Node> {
 // ---------------------------------------------------------------------------------------------------
 // writing the file
 
-fn fmt_box(m: u64, rng: &mut Rng) -> String {
-    match rng.below(3) {
+fn fmt_box(m: u64, rng: &mut Rng, plain: bool) -> String {
+    // plain (the byte-level stream `c07.bytes`): integer boxes only, the model's node reader takes the marker
+    // from an integer third element
+    match if plain { 2 * rng.below(2) } else { rng.below(3) } {
         0 => format!("[0 0 {} 7]", m),
         1 => format!("[0.5 0.25 {}.5 7.75]", m),
         _ => format!("[ -3 0.5 {} 9 ]", m),
@@ -235,6 +241,12 @@ struct Written {
 }
 
 fn write_doc(nodes: &[Node], rng: &mut Rng) -> Written {
+    write_doc_with(nodes, rng, false)
+}
+
+/// `plain`: what the byte-level model of the driver covers — integer boxes, attributes in place, unfiltered object
+/// streams (the filter chain is third-party)
+fn write_doc_with(nodes: &[Node], rng: &mut Rng, plain: bool) -> Written {
     let n = nodes.len() as u64;
     let mut next_aux = 2 + n;
     let mut aux: Vec<(u64, Vec<u8>)> = vec![];
@@ -260,13 +272,13 @@ fn write_doc(nodes: &[Node], rng: &mut Rng) -> Written {
         }
         for (a, key) in ["MediaBox", "CropBox"].iter().enumerate() {
             if let Some(m) = nd.attrs[a] {
-                if rng.chance(1, 6) {
+                if !plain && rng.chance(1, 6) {
                     let id = next_aux;
                     next_aux += 1;
-                    aux.push((id, fmt_box(m, rng).into_bytes()));
+                    aux.push((id, fmt_box(m, rng, plain).into_bytes()));
                     keys.push(format!("/{} {} 0 R", key, id));
                 } else {
-                    keys.push(format!("/{} {}", key, fmt_box(m, rng)));
+                    keys.push(format!("/{} {}", key, fmt_box(m, rng, plain)));
                 }
             }
         }
@@ -276,7 +288,7 @@ fn write_doc(nodes: &[Node], rng: &mut Rng) -> Written {
                 1 => format!("<< /ProcSet [/PDF /Text] /Properties << /M{} << >> >> >>", m),
                 _ => format!("<< /Properties << /M{} << /V 1 >> >> /ExtGState << >> >>", m),
             };
-            if rng.chance(1, 3) {
+            if !plain && rng.chance(1, 3) {
                 let id = next_aux;
                 next_aux += 1;
                 aux.push((id, dict.into_bytes()));
@@ -319,7 +331,7 @@ fn write_doc(nodes: &[Node], rng: &mut Rng) -> Written {
             rest = tail;
             let stm = max_id;
             max_id += 1;
-            let filter = *rng.pick(&[StmFilter::None, StmFilter::Flate]);
+            let filter = if plain { StmFilter::None } else { *rng.pick(&[StmFilter::None, StmFilter::Flate]) };
             w.object_stream(stm, chunk, filter, b"\n", "");
         }
         let xref_id = max_id;
@@ -657,6 +669,36 @@ fn damage(nodes: &mut Vec<Node>, rng: &mut Rng) -> String {
     }
 }
 
+/// `c07.bytes`: the byte-level composition in the driver (`PageTreeB.getPageB`: open path, resolver, parser models on the
+/// bytes, node reader, page-tree model) against `FileOptions::load(..).get_page(i)` on generated tree files
+fn bytes_stream(driver: &Driver, st: &mut Stream, seed: u64, cases: impl Iterator<Item = u64>) {
+    let mut reqs = vec![];
+    let mut imps = vec![];
+    for case in cases {
+        let mut rng = Rng::derive(seed, "c07.bytes", case);
+        let mut nodes = loop {
+            let max_level = 1 + rng.usize(12);
+            let v = gen_random(&mut rng, max_level, 0);
+            if v.len() <= 40 { break v; }
+        };
+        finalize(&mut nodes, &mut rng);
+        place_attrs(&mut nodes, &mut rng);
+        let leaves = leaf_count(&nodes, 0);
+        let nq = leaves + 2;
+        let w = write_doc_with(&nodes, &mut rng, true);
+        let imp = run_real(&w.bytes, false, nq);
+        st.count(&format!("format={}", w.format));
+        let maxlevel = (0..nodes.len()).map(|i| level_of(&nodes, i)).max().unwrap_or(0);
+        st.count(&format!("max_level={:02}", maxlevel));
+        reqs.push(format!("c07.bytes {} {} @c07.bytes/{}/{}", nq, crate::driver::hex(&w.bytes), seed, case));
+        imps.push(imp);
+    }
+    let resp = driver.ask(&reqs);
+    for ((rq, m), i) in reqs.iter().zip(resp.iter()).zip(imps.iter()) {
+        st.case(rq, m, i, rq.len() > 600);
+    }
+}
+
 pub fn run(driver: &Driver, seed: u64, thorough: bool, replay: Option<&serde_json::Value>) -> Report {
     let mut rep = Report::new("C07");
     let mut or = Oracle::new("c07.dfs");
@@ -674,7 +716,9 @@ pub fn run(driver: &Driver, seed: u64, thorough: bool, replay: Option<&serde_jso
             }
         }
         let mut st = Stream::new(&stream, stream != "c07.tree.outside" && stream != "c07.tree.deep");
-        if stream == "c07.tree.exhaustive" {
+        if stream == "c07.bytes" {
+            bytes_stream(driver, &mut st, seed, std::iter::once(case));
+        } else if stream == "c07.tree.exhaustive" {
             // the enumeration depends on the tier the failure was found in: try both
             let mut cs = exhaustive_cases(seed, 6, true, Some(case));
             if !r["desc"].as_str().map(|d| cs.first().map(|c| c.1.desc == d).unwrap_or(false)).unwrap_or(false) {
@@ -709,6 +753,11 @@ pub fn run(driver: &Driver, seed: u64, thorough: bool, replay: Option<&serde_jso
     let mut st = Stream::new("c07.tree.outside", false);
     let n = if thorough { 10_000 } else { 400 };
     run_cases(driver, &mut st, None, seed, (0..n).map(|c| random_case(seed, "c07.tree.outside", c)));
+    rep.streams.push(st);
+
+    let mut st = Stream::new("c07.bytes", true);
+    let n = if thorough { 3_000 } else { 120 };
+    bytes_stream(driver, &mut st, seed, 0..n);
     rep.streams.push(st);
 
     rep.oracles.push(or);
